@@ -34,10 +34,11 @@ const (
 	azDeny           // denies every principal with a plain error (=> 403)
 	azDeny418        // denies every principal with errors.New(418, ..)
 	azDenyP1         // denies exactly principal P1 with a plain error (=> 403)
+	azDenyNil        // denies exactly the nil principal (the anonymous caller) with a plain error (=> 403)
 	nAz
 )
 
-var azName = [nAz]string{"absent", "accept", "deny", "deny418", "denyP1"}
+var azName = [nAz]string{"absent", "accept", "deny", "deny418", "denyP1", "denyNil"}
 
 // rest of the request (handler level)
 const (
@@ -319,6 +320,10 @@ func azDenies(az uint8, princ int) (bool, int) {
 		if princ == 1 {
 			return true, tAzDeny
 		}
+	case azDenyNil:
+		if princ == 0 {
+			return true, tAzDeny
+		}
 	}
 	return false, 0
 }
@@ -403,15 +408,17 @@ func reference(k kase) allowed {
 	}
 	al = allowed{}
 	if anon >= 0 && rejMust == 0 {
-		// anonymous admission (of every anonymous alternative position) is allowed
-		for i := 0; i < int(k.nalts); i++ {
-			if k.alts[i].n == 0 {
-				al.run |= 1 << uint(i*4)
-			}
-		}
-		// the text does not say whether the authorizer is consulted for an anonymous request
+		// the empty alternative is (vacuously) fully satisfied; its principal is nil, and "the registered
+		// authorizer, if any, accepts that principal" covers it too: an authorizer that denies the nil
+		// principal must lead to a refusal with its error
 		if deny, tag := azDenies(k.az, 0); deny {
 			al.refuse |= 1 << uint(tag)
+		} else {
+			for i := 0; i < int(k.nalts); i++ {
+				if k.alts[i].n == 0 {
+					al.run |= 1 << uint(i*4)
+				}
+			}
 		}
 	}
 	al.refuse |= rejMust | rejMay
@@ -647,6 +654,34 @@ func explain(k kase, o obs) string {
 	return fmt.Sprintf("observed %s; the text allows: %s", o, allowedFor(k, o).describe(k))
 }
 
+// anonymousPastAuthorizer is the narrow predicate "the request was let through as anonymous
+// although the registered authorizer denies the nil principal": no alternative is satisfied, an
+// anonymous alternative is declared, no scheme certainly rejected (so the only thing that stands
+// between the request and the handler is the authorizer's verdict on nil), the text demands a
+// refusal, and the observation is an anonymous run (nil principal, no scopes) or, with a broken
+// rest of the request, an answer from binding/validation.
+func anonymousPastAuthorizer(k kase, o obs, al allowed) bool {
+	if deny, tag := azDenies(k.az, 0); !deny || al.run != 0 || al.refuse&(1<<uint(tag)) == 0 {
+		return false
+	}
+	hasAnon := false
+	for i := 0; i < int(k.nalts); i++ {
+		if k.alts[i].n == 0 {
+			hasAnon = true
+		}
+	}
+	if !hasAnon {
+		return false
+	}
+	switch o.kind {
+	case obsRun:
+		return o.princ == 0 && o.princCtx == 0 && o.scopes == ""
+	case obsOther:
+		return k.level == lvlHandler && k.rest != restFine && o.handlerCalls == 0
+	}
+	return false
+}
+
 // judge compares one observation with the reference; "" = satisfied.
 func judge(k kase, o obs) (class string) {
 	if o.kind == obsPanic {
@@ -697,6 +732,9 @@ func judge(k kase, o obs) (class string) {
 	}
 	if class == "" {
 		return ""
+	}
+	if anonymousPastAuthorizer(k, o, al) {
+		return "admitted-unsatisfied/authorizer-not-consulted-for-anonymous"
 	}
 	if o.orderOwned && (treeSkipsUnregistered || treeOverwritesNil) {
 		if feature, pred, ok := defectPredict(k, treeOverwritesNil, treeSkipsUnregistered); ok && matchesDefect(k, o, pred) {
